@@ -37,7 +37,7 @@ def absR (x : Rat) : Rat := if x < 0 then -x else x
 
 /-! ### translations.py: increments and between-radii -/
 
-/-- `get_increments`: `[a0, a1-a0, a2-a1, …]` (the code asserts that all are positive). -/
+/-- `get_increments`: `[a0, a1-a0, a2-a1, …]` (the code asserts `a0 ≥ 0` and that all differences are positive). -/
 def increments : List Rat → List Rat
   | [] => []
   | a :: rest => a :: List.zipWith (fun start stop => stop - start) (a :: rest) rest
@@ -48,7 +48,8 @@ def betweenRadii (t : List Rat) : Except String (List Rat) :=
   | [] => throw "IndexError"
   | _ =>
     let inc := increments t
-    if inc.any (fun v => decide (v ≤ 0)) then throw "AssertionError" else
+    -- assert increment_grid[0] >= 0 and np.all(increment_grid[1:] > 0)
+    if decide (inc.headD 0 < 0) || (inc.drop 1).any (fun v => decide (v ≤ 0)) then throw "AssertionError" else
     let inc2 : List Rat :=
       if inc.length > 1 then
         let popped := inc.drop 1                       -- increments.pop(0)
@@ -163,7 +164,8 @@ def rotMat (q : Q4) : M3 := M3.smul (1 / Q4.normSq q) (rotH q)
 
 abbrev I3 := Int × Int × Int
 
-/-- `np.sign(np.round(x, 6))`: zero iff `|x| ≤ thr` (thr = 5·10⁻⁷; the rounding is the parameter `thr`). -/
+/-- `np.sign(np.round(x, 3))`: zero iff `|x| ≤ thr` (thr = 5·10⁻⁴ Å since fix c9b2235; the rounding is the parameter
+`thr`). -/
 def sgnRound (thr x : Rat) : Int := if x > thr then 1 else if x < -thr then -1 else 0
 
 /-- per atom: signs of the rounded projections on the three axes -/
@@ -174,11 +176,15 @@ def atomSigns (thr : Rat) (pa : M3) (com : V3) (p : V3) : I3 :=
 def zeros (d : I3) : Nat :=
   (if d.1 = 0 then 1 else 0) + (if d.2.1 = 0 then 1 else 0) + (if d.2.2 = 0 then 1 else 0)
 
-/-- The atom loop: `directions` is overwritten by every atom; `break` at the first atom without a zero.
-Without atoms `directions` stays `[0,0,0]`. -/
-def dirLoop : List I3 → I3 → I3
-  | [], cur => cur
-  | a :: rest, _ => if zeros a = 0 then a else dirLoop rest a
+/-- The atom loop (fix c9b2235): keep the FIRST atom with the fewest unknown (zero) signs
+(`if unknown < fewest_unknown: directions, fewest_unknown = candidate, unknown`); `break` at the first atom without a
+zero.  Starts with `directions = [0,0,0]`, `fewest_unknown = 4`. -/
+def dirLoop : List I3 → I3 → Nat → I3
+  | [], best, _ => best
+  | a :: rest, best, fewest =>
+    let best' := if zeros a < fewest then a else best
+    let fewest' := if zeros a < fewest then zeros a else fewest
+    if zeros a = 0 then best' else dirLoop rest best' fewest'
 
 def allowedRighthanded : List I3 := [(1, 1, 1), (-1, 1, -1), (1, -1, -1), (-1, -1, 1)]
 
@@ -198,7 +204,7 @@ def fixDirections (d : I3) : Except String I3 :=
   else pure d
 
 def positiveDirections (signs : List I3) : Except String I3 :=
-  fixDirections (dirLoop signs (0, 0, 0))
+  fixDirections (dirLoop signs (0, 0, 0) 4)
 
 /-- `np.multiply(pa.T, np.tile(dirs / ref, (3, 1)))`: column `j` of `pa.T` (= axis `j`) times `dirs[j]/ref[j]`. -/
 def directionFrame (pa : M3) (dirs ref : I3) : M3 :=
